@@ -471,7 +471,8 @@ BOOKKEEPING = {
     '_closed': {'handle_death': {'add'}, '__init__': {'assign'}},
     '_depleted': {'run': {'assign'}, 'next_inputs': {'assign'}, '__init__': {'assign'}},
 }
-MUTATORS = ('append', 'extend', 'insert', 'pop', 'clear', 'add', 'remove', 'discard', 'update', 'popitem', 'setdefault', 'difference_update', 'sort', 'reverse')
+MUTATORS = ('append', 'extend', 'insert', 'pop', 'clear', 'add', 'remove', 'discard', 'update', 'popitem', 'setdefault', 'difference_update', 'intersection_update',
+            'symmetric_difference_update', 'sort', 'reverse', 'appendleft', 'popleft', 'extendleft', 'rotate', 'move_to_end', '__setitem__', '__delitem__', '__ior__', '__iand__', '__isub__')
 
 
 def check_frame(ctx, pool, cl):
